@@ -4,6 +4,7 @@ CONSTANTS
   MaxBlocks = 2
   Protocols = {2, 3, 4}
   AllPatterns = FALSE
+  StepCheck = TRUE
   AsCoded = FALSE
 INVARIANTS TypeOK FinalEqualsSrc MatchIsProven SkippedNeverExceedsProven TailCut KeptOnlyProven OthersUntouched NoFailure NoStuck
 CHECK_DEADLOCK FALSE
